@@ -308,9 +308,16 @@ def _collect(root: pathlib.Path):
     from .rules import RULES, load_all
     load_all()
     repo = Repo(root)
+    from .model import AnalysisError
+    from .report import Ob
+    from .rules import HOME
     out = []
     for name, fn in RULES.items():
-        out += fn(repo)
+        try:
+            out += fn(repo)
+        except AnalysisError as e:
+            # as in a real run: a rule that cannot decide fails the properties it serves (exit 2), the other rules still report
+            out.append(Ob(name, "<rule>", "analysis-error", "error", tuple(HOME.get(name) or ()), "", 0, str(e)))
     return out
 
 
